@@ -135,6 +135,81 @@ Section Shapes.
     rewrite row_bound. cbn [app]. f_equal. exact IHl.
   Qed.
 
+  (* C16, a DISJUNCTION over items / attributes of the flattened element, an item of the element selected: one row per element
+     that satisfies either branch (two elements of one parent are two rows), each carrying ITS item *)
+  Lemma row_item m v e : row_of h dom [TMap m (TFlat id t)] (bind (bind [] x v) id e) = [apply_map h m e].
+  Proof. unfold row_of. cbn [map EvalPure.eval_term]. now rewrite lookup_id_in. Qed.
+
+  Lemma rows_item_bound m v e :
+    map (row_of h dom [TMap m (TFlat id t)]) (bind_selected h dom [TMap m (TFlat id t)] (bind (bind [] x v) id e)) = [[apply_map h m e]].
+  Proof.
+    cbn [bind_selected EvalPure.eval_term]. rewrite lookup_id_in. cbn [map flat_map fst app]. now rewrite row_item.
+  Qed.
+
+  Definition Bve (v e : val) : binding := bind (bind [] x v) id e.
+
+  Lemma mapped_flat_unbound m :
+    eval_term (TMap m (TFlat id t)) [] = flat_map (fun v => map (fun e => (Bve v e, apply_map h m e)) (inner v)) (dom x).
+  Proof.
+    change (eval_term (TMap m (TFlat id t)) []) with (map (fun bv : binding * val => (fst bv, apply_map h m (snd bv))) (eval_term (TFlat id t) [])).
+    rewrite flat_unbound. induction (dom x) as [|v d IH]; [reflexivity|]. cbn [flat_map]. rewrite map_app, IH. f_equal.
+    rewrite map_map. reflexivity.
+  Qed.
+
+  Lemma mapped_flat_bound m v e : eval_term (TMap m (TFlat id t)) (Bve v e) = [(Bve v e, apply_map h m e)].
+  Proof. unfold Bve. cbn [EvalPure.eval_term]. rewrite lookup_id_in. reflexivity. Qed.
+
+  Lemma cmp_item_unbound m o w ywf :
+    eval h dom (CCmp o (TMap m (TFlat id t)) (TLit w)) [] ywf
+    = flat_map (fun v => flat_map (fun e => if apply_op o (apply_map h m e) w || ywf
+                                            then [(Bve v e, negb (apply_op o (apply_map h m e) w))] else []) (inner v)) (dom x).
+  Proof.
+    cbn [EvalPure.eval]. unfold bound_in. cbn [tvars existsb]. unfold cmp_rows. rewrite mapped_flat_unbound.
+    induction (dom x) as [|v d IH]; [reflexivity|]. cbn [flat_map]. rewrite flat_map_app, IH. f_equal. clear IH.
+    rewrite flat_map_map'. apply flat_map_ext. intros e. cbn [fst snd EvalPure.eval_term flat_map]. now rewrite app_nil_r.
+  Qed.
+
+  Lemma cmp_item_bound m o w ywf v e :
+    eval h dom (CCmp o (TMap m (TFlat id t)) (TLit w)) (Bve v e) ywf
+    = if apply_op o (apply_map h m e) w || ywf then [(Bve v e, negb (apply_op o (apply_map h m e) w))] else [].
+  Proof.
+    cbn [EvalPure.eval]. unfold bound_in. cbn [tvars existsb]. unfold cmp_rows. rewrite mapped_flat_bound.
+    cbn [flat_map fst snd EvalPure.eval_term]. now rewrite !app_nil_r.
+  Qed.
+
+  Lemma match_nil_flat_map {A B} (L : list A) (R0 : list B) (G : A -> list B) :
+    (L = [] -> R0 = []) -> match L with [] => R0 | p :: l => flat_map G (p :: l) end = flat_map G L.
+  Proof. destruct L; intros H; [now rewrite H | reflexivity]. Qed.
+
+  Theorem unnest_item_disjunction m m1 o1 w1 m2 o2 w2 :
+    run_query h dom [TMap m (TFlat id t)]
+      (Some (CElseIf (CCmp o1 (TMap m1 (TFlat id t)) (TLit w1)) (CCmp o2 (TMap m2 (TFlat id t)) (TLit w2))))
+    = flat_map (fun v => map (fun e => [apply_map h m e])
+                             (filter (fun e => apply_op o1 (apply_map h m1 e) w1 || apply_op o2 (apply_map h m2 e) w2) (inner v))) (dom x).
+  Proof.
+    unfold run_query.
+    change (eval h dom (CElseIf (CCmp o1 (TMap m1 (TFlat id t)) (TLit w1)) (CCmp o2 (TMap m2 (TFlat id t)) (TLit w2))) [] false)
+      with (match eval h dom (CCmp o1 (TMap m1 (TFlat id t)) (TLit w1)) [] true with
+            | [] => eval h dom (CCmp o2 (TMap m2 (TFlat id t)) (TLit w2)) [] false
+            | ls => flat_map (fun p : binding * bool => if snd p then eval h dom (CCmp o2 (TMap m2 (TFlat id t)) (TLit w2)) (fst p) false
+                                                       else [(fst p, false)]) ls
+            end).
+    rewrite match_nil_flat_map.
+    - rewrite cmp_item_unbound.
+      induction (dom x) as [|v d IH]; [reflexivity|]. cbn [flat_map].
+      rewrite !flat_map_app, filter_app, map_app, flat_map_app, IH. f_equal. clear IH.
+      induction (inner v) as [|e l IHl]; [reflexivity|]. cbn [flat_map filter map]. rewrite orb_true_r. cbn [app flat_map fst snd].
+      rewrite cmp_item_bound, orb_false_r, filter_app, map_app, flat_map_app, IHl. clear IHl.
+      destruct (apply_op o1 (apply_map h m1 e) w1); cbn [negb orb].
+      + cbn [filter snd negb map fst flat_map app]. unfold Bve. rewrite rows_item_bound. reflexivity.
+      + destruct (apply_op o2 (apply_map h m2 e) w2); cbn [negb app filter snd map fst flat_map].
+        * unfold Bve. rewrite rows_item_bound. reflexivity.
+        * reflexivity.
+    - intros E. rewrite cmp_item_unbound in E. rewrite cmp_item_unbound.
+      induction (dom x) as [|v d IH]; [reflexivity|]. cbn [flat_map] in *. apply app_eq_nil in E as [E1 E2]. rewrite (IH E2), app_nil_r.
+      destruct (inner v) as [|e l]; [reflexivity|]. cbn [flat_map] in E1. rewrite orb_true_r in E1. discriminate E1.
+  Qed.
+
   (* ---------- C17 ---------- *)
   Definition all_elems : val := VTup (flat_map (fun v => atoms_of (tval t (ev v))) (dom x)).
 
